@@ -193,6 +193,7 @@ theorem c_incrTarget (b : SState) (s : Sess) : incrTarget (s.setSt b) = (incrTar
 
 theorem c_verifyAppImpl (b : SState) (s : Sess) (m : InMsg) : verifyAppImpl (s.setSt b) m = mapSt b (verifyAppImpl s m) := by
   unfold verifyAppImpl mapSt
+  rw [setSt_cfg]
   split
   · rfl
   · reads
